@@ -32,6 +32,7 @@ template <class C> void Exec<C>::exec_op(int i) {
         int s = op.a;
         if (s < 0 || s >= N_USLOTS || us[s].state != S_VALID || !loss_enabled) break;
         o.skipped = false;
+        o.aux = (int)us[s].ever.size();   // number of source buffers that die
         lose_sources(s);
         o.digest = "lost";
         break;
@@ -74,6 +75,7 @@ template <class C> void Exec<C>::exec_op(int i) {
     }
     case OP_MKLIST: case OP_COMPOSE: case OP_COMPOSE_MALLOC: case OP_DISSECT: case OP_FREEQL:
         exec_query(i, op, o); break;
+    case OP_ESCAPE: case OP_FILENAME: exec_misc(i, op, o); break;
     default: break;
     }
     if (g.abort_run) o.aborted = true;
@@ -136,7 +138,7 @@ template <class C> void Exec<C>::exec_parse(int i, const Op& op, OpOut& o) {
         }
         if (rc == URI_SUCCESS) {
             if (outs_tmp_fired) violate(V_WRONG_RC, "parse: an allocation request failed but the call returned success", false);
-            sl.state = S_VALID; sl.mgr = op.mgr; sl.owned = false; sl.texts.clear(); sl.deps.clear(); sl.texts.insert(tid); sl.producer = i;
+            sl.state = S_VALID; sl.mgr = op.mgr; sl.owned = false; sl.texts.clear(); sl.deps.clear(); sl.ever.clear(); sl.texts.insert(tid); sl.ever.insert(tid); sl.producer = i;
             UriView v = view(u);
             o.digest = v.str();
             // layout: every reported range inside the window (or an empty placeholder)
@@ -226,7 +228,7 @@ template <class C> void Exec<C>::exec_resolve(int i, const Op& op, OpOut& o, boo
         }
         if (rc == URI_SUCCESS) {
             if (outs_tmp_fired) violate(V_WRONG_RC, "an allocation request failed but the call returned success", false);
-            sl.state = S_VALID; sl.mgr = op.mgr; sl.owned = false; sl.texts.clear(); sl.deps.clear(); sl.producer = i;
+            sl.state = S_VALID; sl.mgr = op.mgr; sl.owned = false; sl.texts.clear(); sl.deps.clear(); sl.ever.clear(); sl.producer = i;
             inherit(sl, us[r], r); inherit(sl, us[b], b);
             o.digest = view(du).str();
             if (du->owner) violate(V_RESULT_DIFFERS, "result of resolve/relativize claims ownership", false);
@@ -346,6 +348,68 @@ template <class C> void Exec<C>::exec_tostring(int i, const Op& op, OpOut& o) {
     }
     if (snapshot(u) != snap) violate(V_CONST_ARG_CHANGED, "recomposition modified the URI", false);
     event("op %d -> rc=%d \"%s\"", i, o.rc, hexesc(o.digest).c_str());
+}
+
+// ------------------------------------------------------------------------------------------------ string helpers (escape, filename, IPv4)
+// These have no allocator, capacity argument or shared input: they run under the monitor for C20 (no static state, no race) only.
+template <class C> void Exec<C>::exec_misc(int i, const Op& op, OpOut& o) {
+    std::string in = op.text;
+    for (auto& ch : in) if (ch == 0) ch = 'x';
+    o.skipped = false;
+    int mode = op.kind == OP_FILENAME ? 1 + (op.opt & 1) : ((op.opt & 3) == 3 ? 3 : 0);
+    const C* src = put_str(in, A_TEXT);
+    size_t n = in.size();
+    auto out_buf = [&](size_t chars) -> C* {
+        arena_alloc(A_OBJ, 32, sizeof(C), perm(0, RS_REDZONE));
+        C* b = (C*)arena_alloc(A_OBJ, chars * sizeof(C), sizeof(C), P_RW);
+        arena_alloc(A_OBJ, 64, 1, perm(0, RS_REDZONE));
+        for (size_t k = 0; k < chars; k++) b[k] = (C)0x7e;
+        return b;
+    };
+    auto zlen = [&](const C* b, size_t maxc) { size_t l = 0; while (l < maxc && b[l] != 0) l++; return l; };
+    event("op %d %s mode=%d \"%s\"", i, opkind_name(op.kind), mode, hexesc(in).c_str());
+    if (mode == 0) {
+        UriBool sp = (op.opt & 4) ? URI_TRUE : URI_FALSE, nb = (op.opt & 8) ? URI_TRUE : URI_FALSE;
+        size_t cap = (nb ? 6 : 3) * n + 1;
+        C* out = out_buf(cap);
+        C* end = nullptr;
+        bool ok = call(i, -1, -1, FaultPlan(), [&] { end = op.entry & 1 ? A::EscapeEx(src, src + n, out, sp, nb) : A::Escape(src, out, sp, nb); });
+        if (!ok) { o.aborted = true; return; }
+        size_t l = zlen(out, cap);
+        std::string esc = narrow(out, out + l);
+        if (end != out + l) violate(V_RESULT_DIFFERS, "escape: returned pointer is not the terminator", false);
+        const C* uend = nullptr;
+        int br = (op.opt >> 4) & 3;
+        ok = call(i, -1, -1, FaultPlan(), [&] { uend = (op.entry & 2) ? A::UnescapeInPlace(out) : A::UnescapeInPlaceEx(out, sp, (UriBreakConversion)br); });
+        if (!ok) { o.aborted = true; return; }
+        size_t l2 = zlen(out, cap);
+        o.digest = esc + "|" + narrow(out, out + l2);
+        (void)uend;
+    } else if (mode == 1 || mode == 2) {
+        bool unix_ = mode == 1;
+        size_t cap = (unix_ ? 7 : 8) + 3 * n + 1;
+        C* uri = out_buf(cap);
+        volatile int rc = 0;
+        bool ok = call(i, -1, -1, FaultPlan(), [&] { rc = unix_ ? A::UnixFilenameToUriString(src, uri) : A::WindowsFilenameToUriString(src, uri); });
+        if (!ok) { o.aborted = true; return; }
+        size_t l = zlen(uri, cap);
+        std::string u = narrow(uri, uri + l);
+        set_perm(uri, cap * sizeof(C), perm(P_R, RS_CONST_ARG));
+        C* back = out_buf(l + 1 + 2);
+        ok = call(i, -1, -1, FaultPlan(), [&] { rc = unix_ ? A::UriStringToUnixFilename(uri, back) : A::UriStringToWindowsFilename(uri, back); });
+        if (!ok) { o.aborted = true; return; }
+        o.rc = rc; o.digest = u + "|" + narrow(back, back + zlen(back, l + 3));
+    } else {
+        unsigned char* oct = (unsigned char*)arena_alloc(A_OBJ, 4, 4, P_RW);
+        arena_alloc(A_OBJ, 16, 1, perm(0, RS_REDZONE));
+        memset(oct, 0xEE, 4);
+        volatile int rc = 0;
+        bool ok = call(i, -1, -1, FaultPlan(), [&] { rc = A::ParseIpFourAddress(oct, src, src + n); });
+        if (!ok) { o.aborted = true; return; }
+        char b[64]; snprintf(b, sizeof b, "rc=%d %u.%u.%u.%u", (int)rc, oct[0], oct[1], oct[2], oct[3]);
+        o.rc = rc; o.digest = rc == 0 ? b : "rc=" + std::to_string(rc);
+    }
+    event("op %d -> %s", i, hexesc(o.digest).c_str());
 }
 
 // ------------------------------------------------------------------------------------------------ query ops
